@@ -18,7 +18,7 @@ func zzFlags(flags string) map[string]struct{} {
 	return ff
 }
 
-// ZZC11 mode: purity | determinism | flags | reentrancy
+// ZZC11 mode: purity | determinism | flags | reentrancy | shared | answers | history
 func ZZC11(mode, script, varspec, metaSpec, flags string) {
 	e := zzPrepare(script, varspec)
 	if len(e.pr.GetParsingErrors()) != 0 {
@@ -141,6 +141,40 @@ func ZZC11(mode, script, varspec, metaSpec, flags string) {
 		zzvrt.Note("result=" + zzErrClass(e1))
 		zzSameOutcome(zzOutcome{r1, e1}, zzOutcome{r2, e2}, "C11:independent-of-earlier-runs")
 		zzvrt.Reach("c11-history-end")
+
+	case "answers":
+		// a store answering exactly what is asked, in maps of its own that it keeps: what it
+		// handed out is the same after the run (the run may keep them, it may not write to them)
+		ff := zzFlags(flags)
+		st := zzNewStore("exact", e, meta)
+		_, err := e.pr.RunWithFeatureFlags(ctx, e.varsMap, st, ff)
+		zzvrt.Note("result=" + zzErrClass(err))
+		for i, h := range st.handed {
+			was := st.handedCopy[i]
+			zzvrt.Assert(len(h) == len(was), "C11:store-answers-unchanged")
+			for acc, am := range was {
+				now, ok := h[acc]
+				zzvrt.Assert(ok && len(now) == len(am), "C11:store-answers-unchanged")
+				for k, v := range am {
+					zzvrt.Assert(now[k] == v, "C11:store-answers-unchanged")
+				}
+			}
+		}
+		zzvrt.Reach("c11-answers-end")
+
+	case "shared":
+		// both calls over ONE bundled static store (its maps are handed out by reference)
+		ff := zzFlags(flags)
+		outs := make([]zzOutcome, 2)
+		store := StaticStore{Balances: e.store.Balances, Meta: meta}
+		zzvrt.Freeze(e.pr, e.varsMap, store, ff)
+		zzvrt.Concurrently(2, func(i int) {
+			r, err := e.pr.RunWithFeatureFlags(ctx, e.varsMap, store, ff)
+			outs[i] = zzOutcome{r, err}
+		})
+		zzvrt.Assert(zzvrt.FrozenWrites() == 0, "C11:concurrent-runs-share-no-written-state")
+		zzSameOutcome(outs[0], outs[1], "C11:concurrent-runs-agree")
+		zzvrt.Reach("c11-shared-end")
 
 	case "reentrancy":
 		ff := zzFlags(flags)
